@@ -18,7 +18,7 @@ out=["<!-- thorough:begin -->","","Thorough tier, last completed run per propert
 for k in sorted(rows):
     lab,ex,secs,st,tr,tc,oc,exh,v,kn=rows[k]
     out.append(f"| {k} | {lab} | {ex} | {int(secs)//60} min {int(secs)%60} s | {int(st):,} | {int(tr):,} | {int(tc):,} | {oc} | {'yes' if exh=='true' else 'no'} | {v} / {kn} |")
-out+=["","(The thorough run of C09 in round 2 exited 1: the genuine page-id defect repaired by 2e691b1; the thorough run of C19 in round 2 died on `checkptr`, see §12. Both were re-run in round 4. Round 5 ran with the final code; its checks shared the 16 cores in groups of three or four, so budget-limited runs covered less than a run alone would. C18 was not re-run after round 2: its additions are part of the quick tier.)","","<!-- thorough:end -->"]
+out+=["","(The thorough run of C09 in round 2 exited 1: the genuine page-id defect repaired by 2e691b1; the thorough run of C19 in round 2 died on `checkptr`, see §12. Both were re-run in round 4. Round 5 ran with the final code; its checks shared the 16 cores in groups of three or four, so budget-limited runs covered less than a run alone would. C18 was not re-run after round 2: its additions are part of the quick tier. The round-5 run of C12 exited 1: the partial visibility of a multi-row INSERT through an index range scan, classified and listed as a known finding (§12) - a re-run would print KNOWN-FINDING and exit 0, as the quick tier now does.)","","<!-- thorough:end -->"]
 block="\n".join(out)
 s=open('/verif/DESIGN.md').read()
 s=re.sub(r'<!-- thorough:begin -->.*?<!-- thorough:end -->', lambda m: block, s, flags=re.S)
